@@ -65,7 +65,7 @@ func (StreamingCRLFileReader) ReadCRL(crlProcessor CRLProcessor, crlFilePath str
 		return nil, err
 	}
 	defer utils.CloseWithErrorHandling(crlFile.Close)
-	algorithmIdentifier, err := findAlgorithmIdentifierInCRL(crlFile)
+	algorithmIdentifier, algorithmIdentifierEncoding, err := findAlgorithmIdentifierInCRL(crlFile)
 	if err != nil {
 		return nil, err
 	}
@@ -115,7 +115,15 @@ func (StreamingCRLFileReader) ReadCRL(crlProcessor CRLProcessor, crlFilePath str
 	if version > 2 {
 		return nil, errors.New(fmt.Sprintf("CRL version %d is an unknown version", version))
 	}
-	_, _ = readAlgorithmIdentifier(&reader) //skip algorithm identifier
+	//the signature field of the tbsCertList is the signed statement about the algorithm, the outer signatureAlgorithm
+	//(which selects hash and verification) has to be the same (RFC 5280 5.1.1.2)
+	_, tbsAlgorithmIdentifierEncoding, err := readAlgorithmIdentifier(&reader)
+	if err != nil {
+		return nil, err
+	}
+	if !bytes.Equal(tbsAlgorithmIdentifierEncoding, algorithmIdentifierEncoding) {
+		return nil, errors.New("signatureAlgorithm of the certificate list differs from the signature field of the tbsCertList")
+	}
 	issuer := new(pkix.RDNSequence)
 	err = asn1parser.ReadStruct(&reader, issuer)
 	if err != nil {
@@ -174,7 +182,7 @@ func (StreamingCRLFileReader) ReadCRL(crlProcessor CRLProcessor, crlFilePath str
 		return nil, err
 	}
 	calculatedSignature := reader.FinishHashCalculation()
-	_, _ = readAlgorithmIdentifier(&reader) //skip algorithm identifier / we already parsed it
+	_, _, _ = readAlgorithmIdentifier(&reader) //skip algorithm identifier / we already parsed it
 	signatureBitString, err := asn1parser.ParseBitString(&reader)
 	if err != nil {
 		return nil, err
@@ -311,42 +319,42 @@ func revokedCertificateListExists(reader hashing.HashingReaderWrapper) bool {
 	return length.Tag == asn1crypto.SEQUENCE
 }
 
-func findAlgorithmIdentifierInCRL(file *os.File) (*pkix.AlgorithmIdentifier, error) {
+func findAlgorithmIdentifierInCRL(file *os.File) (*pkix.AlgorithmIdentifier, []byte, error) {
 	var reader = newHashingCRLReader(file)
 	algoIdOffset := big.NewInt(0)
 	certificateListTL, err := asn1parser.ReadTagLength(&reader)
 	if err != nil {
-		return nil, err
+		return nil, nil, err
 	}
 	err = asn1parser.ExpectTag(asn1crypto.SEQUENCE, certificateListTL.Tag)
 	if err != nil {
-		return nil, err
+		return nil, nil, err
 	}
 	tbsCertListTL, err := asn1parser.PeekTagLength(&reader, 0)
 	if err != nil {
-		return nil, err
+		return nil, nil, err
 	}
 	algoIdOffset = algoIdOffset.Add(algoIdOffset, tbsCertListTL.CalculateTLVLength())
 	err = reader.Discard(algoIdOffset.Int64())
 	if err != nil {
-		return nil, err
+		return nil, nil, err
 	}
-	value := new(pkix.AlgorithmIdentifier)
-	err = asn1parser.ReadStruct(&reader, value)
-	if err != nil {
-		return nil, err
-	}
-	return value, nil
-
+	return readAlgorithmIdentifier(&reader)
 }
 
-func readAlgorithmIdentifier(reader asn1parser.Asn1Reader) (*pkix.AlgorithmIdentifier, error) {
-	value := new(pkix.AlgorithmIdentifier)
-	err := asn1parser.ReadStruct(reader, value)
+// readAlgorithmIdentifier returns the algorithm identifier and its complete encoding
+func readAlgorithmIdentifier(reader asn1parser.Asn1Reader) (*pkix.AlgorithmIdentifier, []byte, error) {
+	encoding := new(asn1.RawValue)
+	err := asn1parser.ReadStruct(reader, encoding)
 	if err != nil {
-		return nil, err
+		return nil, nil, err
 	}
-	return value, nil
+	value := new(pkix.AlgorithmIdentifier)
+	_, err = asn1.Unmarshal(encoding.FullBytes, value)
+	if err != nil {
+		return nil, nil, err
+	}
+	return value, encoding.FullBytes, nil
 }
 
 func newHashingDERCRLReader(crlFile *os.File) hashing.HashingReaderWrapper {
